@@ -140,11 +140,17 @@ class MatchLowering:
             binds = {k: v for k, v in binds.items() if not (isinstance(v, ast.Name) and v.id == k)}      # `case int(x)` on subject x
             if binds:
                 assigned = norm._assigned_names(body)
-                if any(k in assigned for k in binds):
-                    raise NoCanon("capture reassigned")
-                body = [norm._Subst(dict(binds)).visit(copy.deepcopy(x)) for x in body]
                 if guard is not None:
                     guard = norm._Subst(dict(binds)).visit(copy.deepcopy(guard))
+                if any(k in assigned for k in binds):
+                    # a capture that the arm rebinds is an ordinary local initialised from the subject
+                    keep_ = {k: v for k, v in binds.items() if k in assigned}
+                    rest_ = {k: v for k, v in binds.items() if k not in assigned}
+                    body = [norm._Subst(dict(rest_)).visit(copy.deepcopy(x)) for x in body] if rest_ else body
+                    body = [ast.fix_missing_locations(ast.copy_location(ast.Assign(targets=[ast.Name(id=k, ctx=ast.Store())], value=v), c.pattern))
+                            for k, v in keep_.items()] + list(body)
+                else:
+                    body = [norm._Subst(dict(binds)).visit(copy.deepcopy(x)) for x in body]
             if guard is not None:
                 test = guard if test is None else ast.BoolOp(op=ast.And(), values=(test.values if isinstance(test, ast.BoolOp) and isinstance(test.op, ast.And) else [test]) + [guard])
             if test is None:
@@ -1481,6 +1487,10 @@ class _ExprNorm(ast.NodeTransformer):
         self.generic_visit(node)
         _drop_unused_enumerate(node)
         for g_ in node.generators:
+            # for v in iter(X) is for v in X
+            if isinstance(g_.iter, ast.Call) and isinstance(g_.iter.func, ast.Name) and g_.iter.func.id == "iter" and len(g_.iter.args) == 1 and not g_.iter.keywords:
+                g_.iter = g_.iter.args[0]
+        for g_ in node.generators:
             # `if a and b` filters like `if a if b`
             flat = []
             for c_ in g_.ifs:
@@ -2564,6 +2574,7 @@ class Canon:
         b = norm.unroll_literal_loops(b)
         b = norm.map_pushdown(norm.extend_to_augassign(b), pure_calls=_PURE_EXT)
         b = norm.split_parallel_assign(norm.merge_display_building(b))
+        b = norm.default_then_override(b)
         b = norm.fold_none_tests(b)             # `if count is not None` on a count a helper just computed
         b = self.thread_sentinels(b, module)
         b = self.fold_enum_tests(b, module)
@@ -2582,6 +2593,7 @@ class Canon:
         if subst:
             b = norm.forward_subst(b, pure_calls=_PURE_EXT)
             b = _drop_dead_temps(b)
+            b = norm.default_then_override(b)
             b = norm.split_parallel_assign(b)          # a, b = rows   with rows a display that was just written in
             b = subst_single_use(b)
             b2 = norm.split_parallel_assign(b)
